@@ -91,6 +91,19 @@ KindOf(o) ==
       [] o.ev = "Reopen" -> IF prime = {} THEN "Reopen-empty" ELSE "Reopen-some"
       [] OTHER -> o.ev
 
+(* does the line meet the situations the environment of the history is there to create?  (numbers of more than
+   one digit in the stringified keys; instrumentation for the vacuity check only, no clause looks at ids) *)
+Digits(n) == IF n < 10 THEN 1 ELSE IF n < 100 THEN 2 ELSE 3
+Exposure(o) ==
+    CASE o.ev = "Reset" ->
+           LET N(e) == NamesOf(tab, e)
+               near == { e \in prime : N(e).run = o.run /\ N(e).tgt = o.tgt /\ N(e).task = o.task }
+               mine == { x.id : x \in { y \in tab["alg"] : y.n = o.a /\ NameOr(tab["task"], y.p) = o.task } }
+           IN IF \E e \in near, i \in mine : i # e.al /\ IsPre(ToString(i), ToString(e.al))
+              THEN "Reset-with-id-prefix-neighbour" ELSE ""
+      [] o.ev = "Next" -> IF \E e, f \in prime : Digits(e.run) # Digits(f.run) THEN "Next-across-digit-boundary" ELSE ""
+      [] OTHER -> ""
+
 Empty == [t \in TABLES |-> {}]
 TraceInit ==
     /\ tid \in 1..Len(Traces)
@@ -121,6 +134,7 @@ TraceNext ==
        /\ (bad' # {} => PrintT(<<"CLAUSE", Traces[tid].tid, l + 1, r.ev, bad'>>))
        /\ (drift' => PrintT(<<"DRIFT", Traces[tid].tid, l + 1, r.ev>>))
        /\ PrintT(<<"KIND", KindOf(out')>>)
+       /\ (Exposure(out') # "" => PrintT(<<"KIND", Exposure(out')>>))
 
 TraceSpec == TraceInit /\ [][TraceNext]_tvars
 
